@@ -97,3 +97,11 @@ Theorem C13_rpc_close_is_last_needs_confinement :
   exists s, rrun false r_init wu_after_close_run = Some s /\ v_fin (r_v s) = Some SHandler /\ h_s s = [FHdr; FClose; FSwu].
 Proof. exact rpc_close_is_last_needs_confinement. Qed.
 Print Assumptions C13_rpc_close_is_last_needs_confinement.
+(* ... and that close frame is always reachable: while it is not on the wire, one of the server's own
+   goroutines has an enabled step towards it, and those steps terminate *)
+From GT Require Import RpcInv RpcProgress.
+Theorem C13_rpc_close_frame_always_reachable : forall strict ls s, rrun strict r_init ls = Some s ->
+  (v_h (r_v s) = HRet \/ v_h (r_v s) = HRej) -> count_close (h_s s) = 0 ->
+  exists l, In l [SFinH; SCloseGo; SRejGo] /\ exists s', rstep strict s (LV l) = Some s'.
+Proof. exact rpc_close_frame_always_reachable. Qed.
+Print Assumptions C13_rpc_close_frame_always_reachable.
